@@ -52,6 +52,7 @@ def plan(prop, tier, seed):
             ("asan", f"n=3,e=4,m=3,x=2,{CORE},late=1,layouts={L(6)}", []),
             ("asan", f"n=4,e=4,m=2,x=1,plain=1,sameref=0,bare=0,keep=0,layouts={L(2)}", []),
             ("asan", f"n=3,e=5,m=2,x=1,plain=1,sameref=1,bare=0,keep=0,layouts={L(2)}", []),
+            ("asan", f"n=3,e=3,m=2,x=2,{CORE},past=1,layouts={L(2)}", []),
         ]
     if prop == "C06" and q:
         return [
@@ -69,6 +70,7 @@ def plan(prop, tier, seed):
             ("asan", f"n=3,e=3,m=2,x=2,w=1,ws=1,weak=1,plain=1,sameref=1,bare=0,keep=0,layouts={L(2)}", []),
             ("asan", f"n=2,e=4,m=3,x=2,w=2,ws=2,weak=1,{CORE},layouts={L(4)}", []),
             ("asan", f"n=3,e=4,m=3,x=2,{CORE},late=1,layouts={L(4)}", []),
+            ("asan", f"n=3,e=3,m=2,x=2,w=1,ws=0,weak=1,{CORE},bare=0,past=1,layouts={L(2)}", []),
         ] + ([("asan", f"n=3,e=3,m=2,x=2,w=1,ws=0,weak=1,plain=1,sameref=0,bare=0,keep=0,consume=1,layouts={L(2)}", [])] if prop == "C06" else [])
     if prop == "C05":
         if q:
@@ -85,10 +87,13 @@ def plan(prop, tier, seed):
             return [
                 ("asan", f"n=3,e=3,m=2,x=2,plain=1,sameref=0,bare=1,keep=1,probe=1,layouts={L(2)}", []),
                 ("asan", f"n=3,e=3,m=2,x=2,{CORE},layouts={L(2)}", []),
+                ("asan", f"n=3,e=2,m=2,x=2,w=1,ws=0,weak=1,plain=1,sameref=0,bare=0,keep=0,consume=1,layouts={L(2)}", []),
             ]
         return [
             ("asan", f"n=3,e=4,m=3,x=2,plain=1,sameref=0,bare=1,keep=1,late=1,probe=1,layouts={L(3)}", []),
             ("asan", f"n=3,e=4,m=3,x=2,{CORE},late=1,layouts={L(3)}", []),
+            ("asan", f"n=3,e=3,m=2,x=2,plain=1,sameref=0,bare=1,keep=1,probe=1,past=1,layouts={L(2)}", []),
+            ("asan", f"n=3,e=3,m=2,x=2,w=1,ws=0,weak=1,plain=1,sameref=0,bare=0,keep=0,consume=1,layouts={L(2)}", []),
         ]
     if prop == "C09":
         if q:
@@ -102,17 +107,21 @@ def plan(prop, tier, seed):
             ("asan", f"n=3,e=3,m=2,x=2,plain=0,sameref=0,bare=0,keep=0,w=1,ws=1,weak=1,probe=1,layouts={L(8)}", []),
             ("asan", f"n=4,e=4,m=2,x=1,plain=0,sameref=0,bare=0,keep=0,probe=1,layouts={L(6)}", []),
             ("asan", f"n=3,e=3,m=2,x=2,plain=0,sameref=1,bare=0,keep=0,layouts={L(8)}", []),
+            ("asan", f"n=4,e=5,m=1,x=1,plain=0,sameref=0,bare=0,keep=0,probe=1,layouts={L(4)}", []),
         ]
     if prop == "C10":
         if q:
             return [
                 ("asan", f"n=3,e=2,m=1,x=2,plain=1,sameref=0,bare=0,keep=0,s=1,sapi=1,layouts={L(2)}", []),
                 ("asan", f"n=3,e=3,m=1,x=2,plain=0,sameref=0,bare=0,keep=0,s=1,sapi=1,layouts={L(2)}", []),
+                ("asan", f"n=2,e=2,m=1,x=2,w=1,ws=0,weak=1,plain=0,sameref=0,bare=0,keep=0,s=1,sapi=1,layouts={L(2)}", []),
             ]
         return [
             ("asan", f"n=3,e=2,m=1,x=1,w=1,ws=0,weak=1,plain=1,sameref=0,bare=0,keep=0,s=1,sapi=1,layouts={L(2)}", []),
             ("asan", f"n=3,e=3,m=2,x=1,plain=1,sameref=0,bare=0,keep=0,s=1,sapi=1,layouts={L(3)}", []),
             ("asan", f"n=3,e=2,m=1,x=1,plain=1,sameref=0,bare=0,keep=0,s=2,sapi=1,layouts={L(2)}", []),
+            ("asan", f"n=3,e=3,m=1,x=2,plain=0,sameref=0,bare=0,keep=0,s=1,sapi=1,layouts={L(2)}", []),
+            ("asan", f"n=3,e=3,m=1,x=2,w=1,ws=0,weak=1,plain=0,sameref=0,bare=0,keep=0,s=1,sapi=1,layouts={L(2)}", []),
         ]
     if prop == "C11":
         if q:
@@ -132,11 +141,12 @@ def plan(prop, tier, seed):
         if q:
             return [
                 ("asan", f"n=3,e=2,m=2,x=2,plain=1,sameref=1,bare=0,keep=1,elide=1,layouts={L(2)}", []),
-                ("asan", f"n=2,e=3,m=2,x=2,plain=1,sameref=0,bare=0,keep=0,elide=2,layouts={L(2)}", []),
+                ("asan", f"n=2,e=3,m=2,x=2,plain=1,sameref=0,bare=0,keep=0,elide=2,layouts={L(4)}", []),
             ]
         return [
             ("asan", f"n=3,e=3,m=2,x=2,plain=1,sameref=1,bare=0,keep=1,elide=1,layouts={L(2)}", []),
             ("asan", f"n=3,e=3,m=2,x=1,plain=1,sameref=0,bare=0,keep=0,elide=2,layouts={L(2)}", []),
+            ("asan", f"n=2,e=4,m=3,x=2,plain=1,sameref=1,bare=0,keep=1,elide=2,layouts={L(3)}", []),
         ]
     if prop == "C14":
         if q:
@@ -218,6 +228,10 @@ def attributed_to(prop, clause, sig, history):
     if prop == "C05" and clause == "CRASH" and primary == "C02" and ("Weak" in sig or uses_weak):
         # the allocation of an object must stay valid while Weak handles to it exist and
         # the strong side is still at work: a memory error in a history with Weak handles
+        return True
+    if prop == "C08" and clause in ("K8", "K12") and primary == "C12" and "table" in sig:
+        # records involving an object must disappear when its allocation stops being a live
+        # object - also when that happens through try_unwrap / make_mut
         return True
     if prop == "C06" and clause == "K6" and primary in ("C12", "C10"):
         # counts are exact after every operation, also the handle-consuming ones
